@@ -2,6 +2,7 @@ from __future__ import annotations
 
 import math
 import re
+import struct
 from collections.abc import Callable, Sequence
 from dataclasses import dataclass, field
 from typing import Any, Literal, NoReturn, cast, overload
@@ -925,6 +926,32 @@ class AttrParser(BaseParser):
         type_shape = list(type.get_shape())
         type_num_values = math.prod(type_shape)
 
+        try:
+            return self._build_dense_int_or_fp_elements_attr(
+                type, dense_contents, type_shape, type_num_values
+            )
+        except (
+            ValueError,
+            OverflowError,
+            MemoryError,
+            NotImplementedError,
+            struct.error,
+        ) as e:
+            # The type cannot store the literal (unsupported element bitwidth,
+            # value out of range, too many elements, ...)
+            self.raise_error(
+                f"Invalid dense literal of type {type}: {str(e) or e.__class__.__name__}"
+            )
+
+    def _build_dense_int_or_fp_elements_attr(
+        self,
+        type: RankedStructure[AnyDenseElement],
+        dense_contents: (
+            tuple[list[AttrParser._TensorLiteralElement], list[int]] | str | None
+        ),
+        type_shape: list[int],
+        type_num_values: int,
+    ) -> DenseIntOrFPElementsAttr:
         if dense_contents is None:
             # Empty case
             if type_num_values != 0:
@@ -1183,7 +1210,10 @@ class AttrParser(BaseParser):
         def to_complex(
             self, parser: AttrParser, type: ComplexType
         ) -> tuple[float, float] | tuple[int, int]:
-            assert isinstance(self.value, tuple)
+            if not isinstance(self.value, tuple):
+                parser.raise_error(
+                    "Expected a complex literal `(real, imag)`", at_position=self.span
+                )
 
             if isinstance(type.element_type, AnyFloat):
                 return (float(self.value[0]), float(self.value[1]))
@@ -1291,7 +1321,9 @@ class AttrParser(BaseParser):
             self.raise_error(
                 "Complex value must be either (float, float) or (int, int)"
             )
-        token = self._consume_token(MLIRTokenKind.R_PAREN)
+        token = self._parse_token(
+            MLIRTokenKind.R_PAREN, "Expected ')' after complex literal"
+        )
         end = token.span.end
         value = (real, imag)
         span = Span(start, end, input)
